@@ -26,7 +26,7 @@ import (
 )
 
 func init() {
-	zenodb.VerifTimerScale = 5 * time.Millisecond
+	zenodb.VerifTimerScale = 20 * time.Millisecond
 	zenodb.VerifNapDuration = 500 * time.Microsecond
 	dbdrv.AddPointHook(pointHook)
 }
@@ -259,6 +259,7 @@ func (f *Follower) Open() error {
 	f.stopReg = make(chan struct{})
 	f.links = map[int]*link{}
 	f.follows = nil
+	f.ff, f.insert = nil, nil
 	f.mx.Lock()
 	f.regs = map[*zenodb.DB]int{}
 	f.uses = map[*zenodb.DB]int{}
@@ -270,9 +271,22 @@ func (f *Follower) Open() error {
 		IterationCoalesceInterval: time.Millisecond,
 		Panic: func(v interface{}) { f.mx.Lock(); f.Panics = append(f.Panics, fmt.Sprint(v)); f.mx.Unlock() },
 		Follow: func(ff func(sources []int) map[int]*common.Follow, insert func(data []byte, newOffset wal.Offset, source int) error) {
+			// zenodb calls this again whenever another table of the stream starts
+			// following later than the (scaled) start-up timers allow for: the old
+			// session is cancelled and a new one, feeding all tables so far, begins.
+			// Like server.follow, every call starts a fresh set of links.
 			f.mx.Lock()
+			again := f.ff != nil
 			f.ff, f.insert = ff, insert
+			f.follows = nil
 			f.mx.Unlock()
+			if again {
+				for _, l := range f.c.Leaders {
+					f.Cut(l.ID)
+					f.connect(l, false)
+				}
+				return
+			}
 			once.Do(func() { close(ready) })
 		},
 		RegisterRemoteQueryHandler: func(db *zenodb.DB, partition int, realQuery planner.QueryClusterFN) {
@@ -733,6 +747,61 @@ func (f *Follower) Flush(table string) {
 		return
 	}
 	zenodb.VerifFlushTable(f.Z, strings.ToLower(table))
+}
+
+// DebugState renders the counters quiescence is decided on.
+func (c *Cluster) DebugState() string {
+	var sb strings.Builder
+	for _, l := range c.Leaders {
+		for _, s := range c.streams() {
+			fmt.Fprintf(&sb, "leader %d stream %s: joins=%d position=%v end=%v; ", l.ID, s, l.joins, zenodb.VerifLastOffset(l.Z, s, "follow-position"), leaderWALEnd(l, s))
+		}
+	}
+	for _, f := range c.Followers {
+		f.mx.Lock()
+		for id, lk := range f.links {
+			lk.mx.Lock()
+			fmt.Fprintf(&sb, "follower %d.%d link->%d: joined=%v cut=%v dead=%v eager=%v queue=%d received=%d submitted=%d delivered=%d; ", f.Partition, f.ID, id, lk.joined, lk.cut, lk.dead, lk.eager, lk.queue, lk.received, lk.submitted, lk.delivered)
+			lk.mx.Unlock()
+		}
+		f.mx.Unlock()
+		if f.Up {
+			for _, t := range c.Cfg.Tables {
+				name := strings.ToLower(t.Name)
+				_, done, submit, applied := zenodb.VerifCounters(f.Z, name)
+				fmt.Fprintf(&sb, "%s: handoff=%d done=%d submit=%d applied=%d; ", name, zenodb.VerifEventCount(f.Z, name, "follow-handoff"), done, submit, applied)
+			}
+		}
+	}
+	return sb.String()
+}
+
+// OffsetOrdinals returns, for a table of this follower, the in-memory and the
+// file-store offset for the given leader as ordinals of the leader's WAL
+// entries (0 = none, -1 = an offset that is not an entry boundary).
+func (f *Follower) OffsetOrdinals(table string, leader int) (mem, file int) {
+	l := f.c.Leaders[leader]
+	ord := map[string]int{}
+	for _, s := range f.c.streams() {
+		for i, e := range dbdrv.WALEntries(filepath.Join(l.Dir, "_wal", s)) {
+			ord[string(e)] = i + 1
+		}
+	}
+	dump, err := zenodb.VerifDump(f.Z, strings.ToLower(table))
+	if err != nil || dump == nil {
+		return -1, -1
+	}
+	conv := func(m map[int][]byte) int {
+		o, ok := m[l.ID]
+		if !ok || len(o) == 0 {
+			return 0
+		}
+		if n, ok := ord[string(o)]; ok {
+			return n
+		}
+		return -1
+	}
+	return conv(dump.MemOffsets), conv(dump.FileOffsets)
 }
 
 // Close shuts everything down.
